@@ -146,6 +146,15 @@ func c26Pattern(t *rapid.T, lits []string) string {
 		return c26Invalid(t, lits)
 	case k == 34:
 		return rapid.StringOfN(rapid.RuneFrom([]rune(`ab|()\*+?[]^$.{},1`)), 0, 8, -1).Draw(t, "soup")
+	case k < 38:
+		// the user wrote anchors of their own: around an alternation they bind
+		// only its first and last alternative, and a final "\$" is a literal
+		// dollar, not an anchor - the whole-string rule still applies to all of it
+		body := c26Regex(t, lits, 0, false) + "|" + c26Regex(t, lits, 0, false)
+		if rapid.IntRange(0, 2).Draw(t, "anch.single") == 0 {
+			body = rapid.SampledFrom(lits).Draw(t, "anch.lit")
+		}
+		return rapid.SampledFrom([]string{"^", "^", "^", "", `\A`}).Draw(t, "anch.l") + body + rapid.SampledFrom([]string{"$", "$", "$", `\$`, "", `\z`}).Draw(t, "anch.r")
 	default:
 		return c26Regex(t, lits, 1, true)
 	}
